@@ -64,6 +64,10 @@ type NetPlan struct {
 	Isolate int `json:"isolate,omitempty"`
 	IsoFrom int `json:"iso_from,omitempty"`
 	IsoTo   int `json:"iso_to,omitempty"`
+	// Blackouts: slot windows [from,to) in which every verification message in flight is lost while
+	// blocks still pass (votes travel as separate small messages; a checkpoint then stays unjustified
+	// and the next epoch's votes link over it)
+	Blackouts [][2]int `json:"vote_blackouts,omitempty"`
 }
 
 func genNet(rt *rapid.T) any {
@@ -92,6 +96,12 @@ func genNet(rt *rapid.T) any {
 		p.Isolate = 1 + rapid.IntRange(0, 3).Draw(rt, "iso")
 		p.IsoFrom = rapid.IntRange(1, p.Slots/3+1).Draw(rt, "isofrom")
 		p.IsoTo = p.IsoFrom + rapid.IntRange(p.Slots/3, p.Slots).Draw(rt, "isolen")
+	}
+	if rapid.IntRange(0, 3).Draw(rt, "blackoutq") == 3 {
+		for i, n := 0, rapid.IntRange(1, 2).Draw(rt, "nblackouts"); i < n; i++ {
+			from := rapid.IntRange(1, p.Slots-1).Draw(rt, "bofrom")
+			p.Blackouts = append(p.Blackouts, [2]int{from, from + rapid.IntRange(1, 2*cfg.E).Draw(rt, "bolen")})
+		}
 	}
 	nt := rapid.IntRange(8, 48).Draw(rt, "ntape")
 	for i := 0; i < nt; i++ {
@@ -173,6 +183,8 @@ type Net struct {
 	blocksBy      map[bc.Hash]*types.Block
 	dirty         map[int]bool // nodes that processed something since their last check
 	pendingFetch  map[string]uint64
+	slot          int  // current slot (for slot-window faults)
+	draining      bool // faults have stopped
 }
 
 func (nt *Net) draw(n int) int {
@@ -223,6 +235,14 @@ func (nt *Net) send(m *netMsg) {
 	if nt.P.DropPct > 0 && nt.draw(100) < nt.P.DropPct {
 		r.Count("fault.drop", 1)
 		return
+	}
+	if m.vmsg != nil && !nt.draining {
+		for _, b := range nt.P.Blackouts {
+			if nt.slot >= b[0] && nt.slot < b[1] {
+				r.Count("fault.vote_blackout_drop", 1)
+				return
+			}
+		}
 	}
 	if m.block != nil && nt.P.GarblePct > 0 && nt.draw(100) < nt.P.GarblePct {
 		m = nt.garble(m)
@@ -635,8 +655,42 @@ func (nt *Net) checkJustification(ctx string) {
 						cnt++
 					}
 				}
-				r.Violate("justified-without-supermajority", fmt.Sprintf("n=%d", n), "%s: node%d reports checkpoint %s (height %d) as justified, but the validly signed links to it that reached the node (%d from any validator, %d validators in the parent epoch) contain no supermajority from one justified source",
-					ctx, i, w.name(h), s.Height, cnt, n)
+				// what the node itself holds for this checkpoint (diagnosis only)
+				held := ""
+				vs := w.Tree.EffectiveValidators(w.Tree.CheckpointOf(s.Parent).Votes)
+				for _, sl := range cp.SupLinks {
+					held += fmt.Sprintf(" [from %s:", w.name(sl.SourceHash))
+					for _, v := range vs {
+						if v.Order < len(sl.Signatures) && len(sl.Signatures[v.Order]) > 0 {
+							ok := verifyVoteSig(v.PubKey, sl.SourceHash, h, sl.Signatures[v.Order])
+							reached := nt.delivered[i][vote{v.PubKey, sl.SourceHash, h}]
+							held += fmt.Sprintf(" slot%d(valid=%v,seen-arriving=%v)", v.Order, ok, reached)
+						}
+					}
+					held += "]"
+				}
+				// Classify. (a) a supermajority link to it did reach the node, but from a source whose own
+				// justification the node never saw; (b) no supermajority link to it reached the node, but it is
+				// the source of a supermajority link to a descendant that did (the node infers "my source must
+				// have been justified elsewhere" and even finalizes it). Both are the same behaviour of
+				// addVerificationToCheckpoint, which never looks at the source's status.
+				class := ""
+				if ok2, _ := nt.witness(nt.delivered[i], s, map[bc.Hash]bool{}, false); ok2 {
+					class = "source-justification-not-seen/"
+				} else {
+					for _, ch := range w.Order[1:] {
+						c := w.Tree.Nodes[ch]
+						if c.Height%w.P.E != 0 || c.Height <= s.Height || !model.IsAncestor(s, c) {
+							continue
+						}
+						if ok3, src := nt.witness(nt.delivered[i], c, map[bc.Hash]bool{}, false); ok3 && src != nil && src.Hash == s.Hash {
+							class = "inferred-from-outgoing-supermajority-link/"
+							break
+						}
+					}
+				}
+				r.Violate("justified-without-supermajority", class+fmt.Sprintf("n=%d", n), "%s: node%d reports checkpoint %s (height %d) as justified, but the validly signed links to it that reached the node (%d from any validator, %d validators in the parent epoch) contain no supermajority from one justified source; the node's store holds for it:%s",
+					ctx, i, w.name(h), s.Height, cnt, n, held)
 				return
 			}
 			r.Count("probe.justified_checked", 1)
@@ -971,6 +1025,7 @@ func RunNet(t *testing.T, p *NetPlan, r *simkit.Run, or NetOracles) {
 		start := nowMs()
 		base := w.Genesis.Timestamp
 		for slot := 1; slot <= p.Slots && !r.Failed(); slot++ {
+			nt.slot = slot
 			ts := base + uint64(slot)*w.P.IntervalMs
 			if getenv("VERIF_DEBUG", "") != "" {
 				fmt.Fprintf(os.Stderr, "DEBUG slot %d queue=%d votes=%d blocks=%d\n", slot, nt.q.Len(), len(nt.allVotes), len(w.Order))
@@ -1064,6 +1119,7 @@ func RunNet(t *testing.T, p *NetPlan, r *simkit.Run, or NetOracles) {
 			nt.checkAll(or, fmt.Sprintf("slot %d", slot))
 		}
 		// faults stop: heal, drain the network loss-free
+		nt.draining = true
 		for i := range nt.group {
 			nt.group[i] = 0
 		}
@@ -1101,11 +1157,11 @@ func specNet(prop string, or NetOracles, rule string) simkit.Spec {
 	return simkit.Spec{
 		Prop: prop, Gen: genNet, NewPlan: func() any { return &NetPlan{} },
 		Exec: func(t *testing.T, plan any, r *simkit.Run) { RunNet(t, plan.(*NetPlan), r, or) },
-		Rule: "2-4 validators, each honest one a real node that proposes in its slots (real proposer) and signs/relays votes (real finality engine); blocks and votes travel over a simulated network with drawn drop/duplicate/delay rates, partitions, heals and node restarts (only durable state survives); with four validators one may be Byzantine (equivocating blocks, double and surround votes) and anyone may replay old, garbage-signed or non-validator votes; orphans trigger a parent fetch from the sender; after the last slot faults stop and the network drains loss-free. " + rule +
+		Rule: "2-4 validators, each honest one a real node that proposes in its slots (real proposer) and signs/relays votes (real finality engine); blocks and votes travel over a simulated network with drawn drop/duplicate/delay rates, partitions, heals, long isolation of one node, windows in which all votes in flight are lost, and node restarts (only durable state survives); with four validators one may be Byzantine (equivocating blocks, double and surround votes) and anyone may replay old, garbage-signed or non-validator votes; orphans trigger a parent fetch from the sender; after the last slot faults stop and the network drains loss-free. " + rule +
 			" Non-trivial = at least one checkpoint beyond genesis was finalized; distinct = hash of the event trace",
 		Components: nodeComponents,
 		FaultKinds: []string{"fault.drop", "fault.duplicate", "fault.delay_over_a_slot", "fault.partition", "fault.partition_drop", "fault.heal", "fault.restart",
-			"fault.header_suplinks_tampered", "fault.isolate_node", "fault.byz_equivocating_block", "fault.byz_double_vote", "fault.byz_surround_vote", "fault.replayed_old_vote", "fault.garbage_signature_vote", "fault.nonvalidator_vote"},
+			"fault.header_suplinks_tampered", "fault.isolate_node", "fault.vote_blackout_drop", "fault.byz_equivocating_block", "fault.byz_double_vote", "fault.byz_surround_vote", "fault.replayed_old_vote", "fault.garbage_signature_vote", "fault.nonvalidator_vote"},
 		Probes:      []string{"probe.finalized_checkpoints", "probe.justified_checked", "votes.signed_by_honest", "net.orphan_parent_requested"},
 		Assumptions: []string{"fault bound: at most floor((V-1)/3) Byzantine validators, i.e. one of four and none otherwise", "gossip policy is a stub: every message goes to every connected node subject to the drawn faults; TCP/MConnection/peer discovery are not simulated"},
 	}
